@@ -1,9 +1,9 @@
 (* C09 — query line, list cursor and selection evolve exactly as the actions prescribe.
-   Statements only; proofs live in proofs/EditProofs.v.  `run is_alnum c s acts` is the model of any
+   Statements only; proofs live in proofs/EditProofs.v and proofs/EditRefine.v.  `run is_alnum c s acts` is the model of any
    finite sequence of editing / navigation / selection actions, end-of-event truncations, redraws and
    result-list updates; is_alnum (the Unicode letter/number table) and the configuration c (--multi limit,
    --cycle, layout, --no-input, --track, window height, --scroll-off, --filepath-word) are arbitrary. *)
-From Fzf Require Import Prelude EditSpec EditModel EditProofs.
+From Fzf Require Import Prelude EditSpec EditModel EditProofs EditRefine.
 Open Scope Z_scope.
 
 (* the model never fails: no slice of the query is out of range, the current line is always range-checked,
@@ -186,7 +186,70 @@ Proof.
   - vm_compute. repeat split; reflexivity.
 Qed.
 
-(* Stated but not proved (explored by the live spec checks selection_follows_rules / cursor_follows_actions only):
-UNPROVED selection_refines_spec : forall c s a s', is_selection_action a = true -> a <> AToggleIn -> a <> AToggleOut -> cur_in s -> NoDup (map idx (s_res s)) -> do_list c s a = Ok s' -> map idx (ss_sel (sstep_list (sp_of c) (sabs s) a)) = map idx (s_sel s') /\ ss_pos (sstep_list (sp_of c) (sabs s) a) = clamp_pos (count s') (s_cy s')
-UNPROVED update_refines_spec : forall is_alnum c s rs reload s', c_track c = false -> do_action is_alnum c s (AUpdate rs reload) = Ok s' -> sabs s' = sstep_list (sp_of c) (sabs s) (AUpdate rs reload)
-   (toggle-in / toggle-out are excluded on purpose: the man page and the code differ, see KNOWN_FINDINGS) *)
+(* The selection actions are the spec's: on what a redraw shows of the state (sabs), toggle, select, deselect,
+   select-all, deselect-all, toggle-all and clear-selection produce exactly the spec's selection (same lines in the
+   same order of selection; the proof gives equality of the item lists, EditRefine.selection_refines_spec_strong)
+   and leave the cursor where it was.  Hypotheses: the cursor designates a line of the list (cur_in, what a redraw
+   establishes) and the result list has no two lines with the same index (true of every merger; toggle-all's
+   position bookkeeping relies on it).  toggle-in / toggle-out are excluded on purpose: the man page and the code
+   differ, see KNOWN_FINDINGS. *)
+Theorem selection_refines_spec : forall c s a s',
+  is_selection_action a = true -> a <> AToggleIn -> a <> AToggleOut -> cur_in s -> NoDup (map idx (s_res s)) ->
+  do_list c s a = Ok s' ->
+  map idx (ss_sel (sstep_list (sp_of c) (sabs s) a)) = map idx (s_sel s') /\
+  ss_pos (sstep_list (sp_of c) (sabs s) a) = clamp_pos (count s') (s_cy s').
+Proof. exact selection_refines_spec_proof. Qed.
+Print Assumptions selection_refines_spec.
+
+(* A new result list (without --track): the query line is untouched, the list is the new one, the selection is kept
+   or, on reload, dropped, and the cursor keeps its position as far as the new list allows.
+   Hypothesis cur_shown s (0 <= cy <= max 0 (count-1): the cursor is where the last redraw left it) had to be ADDED
+   to the statement as first written: UpdateList does not touch t.cy, only the next redraw clamps it, so when two
+   lists arrive between two redraws a cursor beyond the end of the first (short) list reappears in the second,
+   whereas the spec clamps at every step.  cur_in is not enough (empty list, cy = 1): see update_needs_redraw. *)
+Theorem update_refines_spec : forall is_alnum c s rs reload s',
+  c_track c = false -> cur_shown s ->
+  do_action is_alnum c s (AUpdate rs reload) = Ok s' ->
+  sabs s' = sstep_list (sp_of c) (sabs s) (AUpdate rs reload).
+Proof. exact update_refines_spec_proof. Qed.
+Print Assumptions update_refines_spec.
+
+(* ... and a redraw establishes cur_shown *)
+Example redraw_gives_cur_shown : forall c s s', 1 <= c_maxitems c -> constrain c s = Ok s' -> cur_shown s'.
+Proof. exact constrain_cur_shown. Qed.
+
+(* the statement without cur_shown is refuted by the model: empty list, cy = 1 (cur_in holds), three lines arrive *)
+Example update_needs_redraw :
+  exists c s rs, c_track c = false /\ cur_in s /\
+    exists s', do_action (fun _ => true) c s (AUpdate rs false) = Ok s' /\
+               sabs s' <> sstep_list (sp_of c) (sabs s) (AUpdate rs false).
+Proof. exact update_needs_redraw_proof. Qed.
+
+(* non-vacuity of selection_refines_spec: limit 3, four result lines, two selected lines (one of them listed, one not),
+   cursor on the second line; toggle-all unselects line 2, then adds lines 7 and 0 and stops at the limit *)
+Example c09_selection_nonvacuous :
+  let c := mkCfg 3 false true false false 5 0 false in
+  let s := mkSt [] 0 [] [(7, [97]); (2, [98]); (0, [99]); (5, [100])] 1 0 [(2, [98]); (9, [120])] in
+  is_selection_action AToggleAll = true /\ cur_in s /\ NoDup (map idx (s_res s)) /\
+  exists s', do_list c s AToggleAll = Ok s' /\ map idx (s_sel s') = [9; 7; 0] /\
+    map idx (ss_sel (sstep_list (sp_of c) (sabs s) AToggleAll)) = [9; 7; 0] /\
+    ss_pos (sstep_list (sp_of c) (sabs s) AToggleAll) = 1.
+Proof.
+  split; [reflexivity|]. split; [right; cbn; lia|]. split.
+  - cbn. repeat (constructor; [cbn; intuition discriminate|]). constructor.
+  - eexists. split; [reflexivity|]. vm_compute. repeat split; reflexivity.
+Qed.
+
+(* non-vacuity of update_refines_spec: cursor on the fourth of four lines, two selected lines; a list of two lines arrives *)
+Example c09_update_nonvacuous :
+  let c := mkCfg 3 false true false false 5 0 false in
+  let s := mkSt [113] 1 [] [(7, [97]); (2, [98]); (0, [99]); (5, [100])] 3 0 [(2, [98]); (9, [120])] in
+  let rs := [(2, [98]); (5, [100])] in
+  c_track c = false /\ cur_shown s /\
+  exists s', do_action (fun _ => true) c s (AUpdate rs false) = Ok s' /\
+    sabs s' = sstep_list (sp_of c) (sabs s) (AUpdate rs false) /\
+    ss_pos (sabs s') = 1 /\ map idx (ss_sel (sabs s')) = [2; 9] /\ map idx (ss_res (sabs s')) = [2; 5].
+Proof.
+  split; [reflexivity|]. split; [unfold cur_shown; cbn; lia|].
+  eexists. split; [reflexivity|]. vm_compute. repeat split; reflexivity.
+Qed.
